@@ -1,28 +1,51 @@
-"""Registry of everything the checks run: Kani harness groups + harnesses, MIR queries."""
+"""Registry of everything the checks run: Kani harness groups + harnesses, MIR queries.
+Fragments live in reg/*.py; each fragment calls group(), K() and M()."""
+import os, glob, importlib.util
 from vlib.kanirun import Harness as H
 
-STD_STUBS = ["std::time::Instant::now -> fixed/symbolic clock (verif_common)",
+STD_STUBS = ["std::time::Instant::now -> fixed/manual/symbolic clock (verif_common)",
              "std::panic::catch_unwind -> Ok(f()) (exact under panic=abort)"]
 
-GROUPS = {
-    # storage engine, Vec-backed container models, real 16 shards
-    "eng": dict(family="vec", shrinks={}, overlays={"src/storage/engine.rs": "ovl_engine.rs"}),
-}
-
+GROUPS = {}
 HARNESSES = []
 MIR_QUERIES = []
 
 
+def group(name, **spec):
+    assert name not in GROUPS, name
+    GROUPS[name] = spec
+
+
 def K(*a, **kw):
-    HARNESSES.append(H(*a, **kw))
+    h = H(*a, **kw)
+    assert h.group in GROUPS, h.group
+    assert all(x.name != h.name for x in HARNESSES), "duplicate harness " + h.name
+    # --harness is a substring filter: no harness name may contain another one
+    HARNESSES.append(h)
 
 
-# ------------------------------------------------------------------ C01 / C06: strings
-K("c01_getrange_len3", "eng", ["C01", "C06"], tier="quick", timeout=600,
-  desc="GETRANGE on a present 3-byte symbolic string, start/end full-width symbolic isize: reply = Redis getrangeCommand model, value untouched, no panic/overflow",
-  encodes=["StorageEngine::getrange", "StorageEngine::get_shard", "StorageEngine::get_shard_index"],
-  bounds="value exactly 3 symbolic bytes; start,end: all 2^64 isize values each; unwind 5",
-  stubs=STD_STUBS)
-K("c01_getrange_len0", "eng", ["C01", "C06"], tier="quick", timeout=600,
-  desc="GETRANGE on a present empty string, start/end full-width symbolic",
-  encodes=["StorageEngine::getrange"], bounds="value empty; start,end all isize; unwind 5", stubs=STD_STUBS)
+class MirQuery:
+    def __init__(self, name, props, kind, tier="quick", desc="", expect="hold", assumptions=(), **params):
+        self.name, self.props, self.kind, self.tier, self.desc = name, props, kind, tier, desc
+        self.expect = expect
+        self.assumptions = list(assumptions)
+        self.params = params
+
+
+def M(*a, **kw):
+    q = MirQuery(*a, **kw)
+    assert all(x.name != q.name for x in MIR_QUERIES), q.name
+    MIR_QUERIES.append(q)
+
+
+_here = os.path.dirname(os.path.abspath(__file__))
+for _p in sorted(glob.glob(os.path.join(_here, "reg", "*.py"))):
+    _spec = importlib.util.spec_from_file_location("reg_" + os.path.basename(_p)[:-3], _p)
+    _m = importlib.util.module_from_spec(_spec)
+    _m.group, _m.K, _m.M, _m.STD_STUBS = group, K, M, STD_STUBS
+    _spec.loader.exec_module(_m)
+
+_names = [h.name for h in HARNESSES]
+for _a in _names:
+    for _b in _names:
+        assert _a == _b or _a not in _b, "harness name %s is a substring of %s (ambiguous --harness filter)" % (_a, _b)
